@@ -165,12 +165,16 @@ P("C12",
   "creation reports (price, tick), consumes no id and leaves every existing record, every view and both side indexes unchanged; the grid invariant (every "
   "limit order's price is a multiple of the tick) is re-established by placements and by modifications, with modify prices UNCONSTRAINED in the isolating harness.",
   [book(f"c12_create_tick{t}_m2", f"create_order(any side, any volume, any u32 price | market), tick {t}", covers=["cover.limit_order_created"] + (["cover.creation_rejected"] if t > 1 else []), timeout=600,
-        tiers=("quick", "thorough") if t in (1, 2, 3, 7, 10) else ("thorough",)) for t in range(1, 11)]
+        tiers=("quick", "thorough") if t in (1, 2, 3, 4, 7, 8, 10) else ("thorough",)) for t in range(1, 11)]
   + [book("c12_grid_place_tick3_off_m2", "placement (any kind) on a tick-3 book keeps every price on the grid; views == recomputation", covers=["cover.placed_while_disabled"]),
      book("c12_grid_modify_price_tick3_off_m2", "modify to any ON-grid price on a tick-3 book (trading off) keeps the grid; views == recomputation", covers=["cover.modify_non_active"]),
      book("c12_grid_modify_ongrid_tick3_m2", "same with the trading flag symbolic and every option shape", covers=["cover.modify_trades", "cover.modify_non_active"], tiers=("thorough",), timeout=3000),
-     book("c12_modify_any_price_tick3_m2", "modify_order with ANY new price on a tick-3 book keeps every resting price on the grid", role="C12.modify_offgrid_price", covers=["cover.modify_non_active"], timeout=600)],
-  bounds="table of 2 arbitrary entries (+1 created), ticks 1..10 enumerated (quick: 1,2,3,7,10), full-width prices incl. 0 and 2^32-1",
+     book("c12_modify_any_price_tick3_m2", "modify_order with ANY new price on a tick-3 book keeps every resting price on the grid", role="C12.modify_offgrid_price", covers=["cover.modify_non_active"], timeout=600),
+     book("c12_modify_any_price_tick2_m2", "same on a tick-2 book (2 does not divide 2^32-1: MAX - price, the bid-side queue key, is off the grid)", role="C12.modify_offgrid_price", covers=["cover.modify_non_active"], timeout=600),
+     book("c12_modify_any_price_tick10_m2", "same on a tick-10 book", role="C12.modify_offgrid_price", covers=["cover.modify_non_active"], timeout=600),
+     book("c12_modify_any_price_tick8_m2", "same on a tick-8 book (power of two)", role="C12.modify_offgrid_price", covers=["cover.modify_non_active"], timeout=600, tiers=("thorough",)),
+     book("c12_modify_any_price_tick7_on_m2", "ANY new price, every option shape, trading flag symbolic, tick 7", role="C12.modify_offgrid_price", covers=["cover.modify_non_active", "cover.modify_trades"], timeout=3000, tiers=("thorough",))],
+  bounds="table of 2 arbitrary entries (+1 created), ticks 1..10 enumerated (quick: 1,2,3,4,7,8,10), full-width prices incl. 0 and 2^32-1",
   outside="ticks > 10; tables > 2 entries; environment-level creation is decided by C10's submission harnesses (same Ok <=> on-grid / no-trace assertions through Env::place_order)")
 
 P("C05",
@@ -311,7 +315,8 @@ K4 = [de("c16_noise_update_n2_always", "NoiseAgent::update, 2 traders, p_limit >
       de("c16_noise_update_n2_never", "same, both probabilities 0: nothing", covers=["cover.nobody_acted"], timeout=600),
       de("c16_noise_update_n2_limit_only", "same, p_limit >= 1, p_market = 0", covers=[], timeout=600),
       de("c16_noise_update_n2_interior", "same, both probabilities strictly inside (0,1): at most one of each per trader", covers=["cover.every_trader_placed_both", "cover.nobody_acted"], timeout=600),
-      de("c17_momentum_ratio_zero_rising_n2", "MomentumAgent::update, order ratio 0 at saturated demand: never a limit order, always one market order per trader", covers=["cover.every_trader_acted"], timeout=600)]
+      de("c17_momentum_ratio_zero_rising_n2", "MomentumAgent::update, order ratio 0 at saturated demand: never a limit order, always one market order per trader", covers=["cover.every_trader_acted"], timeout=600),
+      de("c17_momentum_saturated_ratio_half_rising_n2", "MomentumAgent::update, order ratio 1/2 and demand/n >= 4: the limit-order probability ratio x demand/n >= 1 means ALWAYS (one limit + one market order per trader)", covers=["cover.every_trader_acted"], timeout=600)]
 
 PROPS["C16"] = {
     "level": "model_checking",
@@ -373,15 +378,21 @@ PROPS["C17"] = {
                   de("c17_momentum_ratio_zero_rising_n2", "order ratio 0 at saturated demand, rising: never a limit order, one market BUY per trader", covers=["cover.every_trader_acted"], timeout=600),
                   de("c17_momentum_ratio_zero_falling_n1", "order ratio 0 at saturated demand, falling, 1 trader", covers=["cover.every_trader_acted"], timeout=600, tiers=("thorough",)),
                   de("c17_momentum_market_saturated_rising_n2", "multi-asset agent, saturated, rising: one market + one limit BUY per trader on its own asset", covers=["cover.every_trader_acted"], timeout=600),
-                  de("c17_momentum_market_saturated_falling_n2", "multi-asset agent, saturated, falling: one market + one limit SELL per trader on its own asset", covers=["cover.every_trader_acted"], timeout=600)],
+                  de("c17_momentum_market_saturated_falling_n2", "multi-asset agent, saturated, falling: one market + one limit SELL per trader on its own asset", covers=["cover.every_trader_acted"], timeout=600),
+                  de("c17_momentum_ratio_zero_falling_n2", "order ratio 0 at saturated demand, falling, 2 traders: never a limit order, one market SELL per trader", covers=["cover.every_trader_acted"], timeout=600),
+                  de("c17_momentum_saturated_ratio_half_rising_n2", "order ratio 1/2, demand/n >= 4 (market probability > 1, limit probability >= 1 only if derived from the UNCAPPED product): one market + one limit BUY per trader", covers=["cover.every_trader_acted"], timeout=600),
+                  de("c17_momentum_saturated_ratio_half_falling_n2", "same, falling market: one market + one limit SELL per trader", covers=["cover.every_trader_acted"], timeout=600),
+                  de("c17_momentum_market_saturated_ratio_half_falling_n2", "multi-asset agent, order ratio 1/2, demand/n >= 4, falling", covers=["cover.every_trader_acted"], timeout=600, tiers=("thorough",)),
+                  de("c17_momentum_market_update_n1_decay1", "multi-asset agent update, 1 trader, decay 1: signal formula stored also when nothing can be traded (signal 0, demand 0), direction, multiplicity, own asset", covers=C17_COV_U + ["cover.signal_cancelled_by_a_reversal"], timeout=900),
+                  de("c17_momentum_market_update_n2_decay_half", "multi-asset agent update, 2 traders, decay 1/2", covers=C17_COV_U + ["cover.signal_cancelled_by_a_reversal"], timeout=1500, tiers=("thorough",))],
 }
 
 PROPS["C20"] = {
     "level": "model_checking",
     "functions": ["bourse_macros::AgentSet (derive, real expansion compiled by rustc)", "bourse_macros::MarketAgentSet (derive)", "Env::place_order", "MarketEnv::place_order"],
-    "assumptions": DE_ASSUME[:1] + DE_ASSUME[3:] + ["struct shapes are ENUMERATED (1, 2, 3, 4, 8 fields, repeated and mixed member types, a member that is itself a derived set, both derives); inputs (environment, generator words) are symbolic"],
-    "bounds": "shapes with 1, 2, 3, 4, 8 fields, one nested shape, unsorted field names, one-line declarations without trailing comma, per derive; one update() call each; ALL generator words",
-    "outside": "other shapes (5-7 fields, tuple structs, generics, field names that collide with the generated identifiers); the proc-macro itself runs at compile time and is exercised by compiling each shape, not symbolically",
+    "assumptions": DE_ASSUME[:1] + DE_ASSUME[3:] + ["struct shapes are ENUMERATED (1..8 fields, repeated and mixed member types, a member that is itself a derived set, decorated fields, both derives); inputs (environment, generator words) are symbolic"],
+    "bounds": "shapes with 1..8 fields, one nested shape, unsorted field names, one-line declarations without trailing comma, decorated fields (doc comments, attributes, visibilities, raw identifier, members named env / rng / update), per derive; one update() call each; ALL generator words",
+    "outside": "other shapes (more than 8 fields, tuple structs, generics - neither is accepted by the derives); the proc-macro itself runs at compile time and is exercised by compiling each shape, not symbolically",
     "explanation": "For each enumerated shape the derived update() makes exactly one submission per member, in declaration order (trader tag k+1 at position k), hands draw k of the shared generator to member k (so the generator is shared, not cloned or reseeded), runs each member's own update, and is interchangeable with the hand-written sequence of calls on a twin environment.",
     "stubs": [],
     "harnesses": [de("c20_agentset_1_2_3", "AgentSet: 1, 2 (mixed types), 3 fields (repeated type) + twin with hand-written calls", covers=["cover.distinct_words"], tests=True, timeout=900, replayable=False),
@@ -390,7 +401,9 @@ PROPS["C20"] = {
                   de("c20_marketagentset_1_3_nested", "MarketAgentSet: 1, 3 fields, nested", covers=["cover.reached_end"], tests=True, timeout=900, replayable=False),
                   de("c20_marketagentset_8", "MarketAgentSet: 8 fields", covers=["cover.reached_end"], tests=True, timeout=900, replayable=False),
                   de("c20_agentset_names_and_commas", "AgentSet: field names not in alphabetical order; one-line struct without trailing comma; single field", covers=["cover.reached_end"], tests=True, timeout=900, replayable=False),
-                  de("c20_marketagentset_names_and_commas", "MarketAgentSet: same three shapes", covers=["cover.reached_end"], tests=True, timeout=900, replayable=False)],
+                  de("c20_marketagentset_names_and_commas", "MarketAgentSet: same three shapes", covers=["cover.reached_end"], tests=True, timeout=900, replayable=False),
+                  de("c20_agentset_decorated_5_6_7", "AgentSet: 5 decorated fields (line / block doc comments, lint / cfg / doc attributes, pub / pub(crate), raw identifier, members named env / rng / update), 6 and 7 plain fields in reverse-alphabetical and mixed-type order", covers=["cover.reached_end"], tests=True, timeout=900, replayable=False),
+                  de("c20_marketagentset_decorated_5_6_7", "MarketAgentSet: same three shapes", covers=["cover.reached_end"], tests=True, timeout=900, replayable=False)],
 }
 
 PROPS["C14"] = {
@@ -420,9 +433,10 @@ PROPS["C18"] = {
     "bounds": "wrapper over an arbitrary 2-entry core book (10 published levels as in the Python build), one call per harness, full-width arguments",
     "outside": "CPython <-> Rust argument extraction (OverflowError), the exception OBJECT (ValueError), get_orders / get_trades list building (their element casts are covered), what the forwarded Env::step / place_order do (C08 / C10), JSON interchange with Python (C07's text layer)",
     "explanation": "Wrapper object and a bare core object built from the same arbitrary order table: every scalar getter returns the core's value (bid getters from bid data, ask from ask; StepEnv getters from the step snapshot and the core clock / counter), order_status returns the documented code 0..4 for every status, each mutating method (set_time, toggles, cancel, modify, place) leaves the wrapped book equal to a reference driven by the same call with True = bid, and the order / trade tuple casts put the documented field at every position.",
-    "stubs": ["pyo3::exceptions::PyValueError::new_err -> path ends (assume false)", "OrderBook::process_event -> logging stand-in in c18_stepenv_step_uses_its_own_generator only"],
+    "stubs": ["pyo3::exceptions::PyValueError::new_err -> path ends (assume false)", "OrderBook::process_event -> logging stand-in in c18_stepenv_step_uses_its_own_generator only", "std BTreeMap -> verif_map (cfg(kani) only)"],
     "harnesses": [py("c18_orderbook_getters", "OrderBook getters and status codes == core", covers=["cover.rejected_order", "cover.asymmetric_book"]),
-                  py("c18_orderbook_operations_off", "OrderBook.set_time / toggles / cancel / modify / place forward unchanged (trading off)", covers=["cover.bid_placed_through_the_wrapper"]),
+                  py("c18_orderbook_operations_off", "OrderBook.set_time / toggles / cancel / modify / place forward unchanged (trading off)", covers=["cover.bid_placed_through_the_wrapper", "cover.modify_restates_the_current_price", "cover.pure_reduction"]),
+                  dict(book("c07_reload_m2", "snapshot interchange, Rust side: what the Python OrderBook.load_json hands to (derived decode + TryFrom<OrderBookState>) restores every scalar, record, key and both side indexes from an arbitrary order table (unplaced, rejected, cancelled orders included)", covers=["cover.two_sided_book", "cover.unplaced_and_active_orders_present"], timeout=600), replayable=True),
                   py("c18_record_casts", "cast_order / cast_trade field positions and encodings", covers=["cover.rejected_ask"]),
                   py("c18_stepenv_getters", "StepEnv getters and status codes == core / step snapshot", covers=["cover.rejected_order"]),
                   py("c18_stepenv_step_uses_its_own_generator", "StepEnv.place/cancel/modify queue what the core queues; step() drives the core with the object's own generator, whose state carries over between steps (symbolic seed)", covers=[], timeout=900)],
